@@ -49,8 +49,12 @@ REQS = [
     dict(N=[None], M=[None], bw=1, sp=25, blocked=True),
     dict(N=[None], M=[None], bw=8, sp=25),       # 32 slots: fits only an empty map
     dict(N=[-12], M=[6], bw=2, sp=37.5),
+    dict(N=[-19], M=[2], bw=1, sp=25),           # lowest slot exactly one grid step inside the lower guard band
+    dict(N=[18], M=[3], bw=1, sp=25),            # highest slot exactly one grid step inside the upper guard band
+    dict(N=[-18], M=[2], bw=1, sp=25),           # lowest slot exactly on the first usable index
+    dict(N=[18], M=[2], bw=1, sp=25),            # highest slot exactly on the last usable index
 ]
-QUICK_REQS = [0, 1, 3, 5, 6, 8, 10, 11, 12, 13, 14, 16, 17]
+QUICK_REQS = [0, 1, 3, 5, 6, 8, 10, 11, 12, 13, 14, 16, 17, 19, 20]
 DOCUMENTED_REASONS = {'NO_SPECTRUM', 'NOT_ENOUGH_RESERVED_SPECTRUM'}
 
 
